@@ -13,6 +13,11 @@
 //     pows     power-on behaviour of the stimulus process: 0 nothing, 1 set inputs at power-on,
 //              2 set inputs at power-on, WaitStable, read outputs (the pattern of the known C20 finding)
 //     end      simulated time
+//     rp<k>=H|L rt<k>=S|A|N   reset polarity (active high / low) and kind (synchronous / asynchronous / none) of clock k
+//     mrc<k>=<n> mrt<k>=<ps>  Clock::setMinResetCycles / setMinResetTime of clock k
+//     rn<k>=<name>            custom reset name of clock k (default rst_<k>)
+//     der=<0|1|2>             1: a derived clock (clk_0 / 2) sharing clk_0's reset, 2: derived clock with its own reset name
+//                             and the OPPOSITE polarity; its domain holds an enable counter with reset value (o_dcnt)
 //
 // For every case the design (per clock domain: free running counter, enable/clear accumulator, shift register
 // without reset, data register, xor network, 1-bit vector, xor bit) is built through the frontend, a seeded
@@ -24,8 +29,8 @@
 //                      values: MSB first over 0,1,X (undefined, VALUE plane 0),W (undefined, VALUE plane 1)
 //   <id>.tvlog         callback sequence as the test-bench recorder receives it
 //   <id>.testvectors   copy of the real recorder's file
-//   <id>.replay        the real file replayed into a FRESH simulation of the same design:
-//                      K <record> <time ps> <pin> <expected> <actual> <ok|FAIL>, RSTFILE/RSTSIM lists
+//   <id>.replay        the real file replayed into a FRESH simulation of the same design whose reset pins are driven by the
+//                      RST records:  K <record> <time ps> <pin> <expected> <actual> <ok|FAIL>,  RSTREC <record> <time ps> <reset> <level>
 #include "vh.h"
 #include <gatery/simulation/waveformFormats/VCDSink.h>
 #include <gatery/simulation/SimulatorCallbacks.h>
@@ -50,6 +55,10 @@ struct Params {
 	bool tv = false, allsig = false;
 	int wait = 0, pows = 0;
 	std::pair<uint64_t, uint64_t> end{1, 1000000};
+	char rp[2] = {'H', 'H'}, rt[2] = {'S', 'S'};
+	uint64_t mrc[2] = {0, 0}, mrt[2] = {0, 0};
+	std::string rn[2];
+	int der = 0;
 };
 
 static std::pair<uint64_t, uint64_t> parseFrac(const std::string &s) {
@@ -71,6 +80,12 @@ static Params parseCase(const std::string &line) {
 		else if (k == "tv") p.tv = v == "1"; else if (k == "allsig") p.allsig = v == "1";
 		else if (k == "wait") p.wait = atoi(v.c_str()); else if (k == "pows") p.pows = atoi(v.c_str());
 		else if (k == "end") p.end = parseFrac(v);
+		else if (k == "der") p.der = atoi(v.c_str());
+		else if (k.size() == 3 && k.substr(0, 2) == "rp" && (k[2] == '0' || k[2] == '1')) p.rp[k[2] - '0'] = v.empty() ? 'H' : v[0];
+		else if (k.size() == 3 && k.substr(0, 2) == "rt" && (k[2] == '0' || k[2] == '1')) p.rt[k[2] - '0'] = v.empty() ? 'S' : v[0];
+		else if (k.size() == 3 && k.substr(0, 2) == "rn" && (k[2] == '0' || k[2] == '1')) p.rn[k[2] - '0'] = v;
+		else if (k.size() == 4 && k.substr(0, 3) == "mrc" && (k[3] == '0' || k[3] == '1')) p.mrc[k[3] - '0'] = strtoull(v.c_str(), nullptr, 10);
+		else if (k.size() == 4 && k.substr(0, 3) == "mrt" && (k[3] == '0' || k[3] == '1')) p.mrt[k[3] - '0'] = strtoull(v.c_str(), nullptr, 10);
 	}
 	return p;
 }
@@ -109,8 +124,12 @@ static void buildDesign(const Params &p, Built &b) {
 		ClockConfig cfg;
 		cfg.absoluteFrequency = hlim::ClockRational(p.freq[k].first, p.freq[k].second);
 		cfg.name = "clk" + sfx;
-		cfg.resetName = "rst" + sfx;
+		cfg.resetName = p.rn[k].empty() ? "rst" + sfx : p.rn[k];
+		cfg.resetActive = p.rp[k] == 'L' ? ClockConfig::ResetActive::LOW : ClockConfig::ResetActive::HIGH;
+		cfg.resetType = p.rt[k] == 'A' ? ClockConfig::ResetType::ASYNCHRONOUS : (p.rt[k] == 'N' ? ClockConfig::ResetType::NONE : ClockConfig::ResetType::SYNCHRONOUS);
 		Clock clk(cfg);
+		if (p.mrc[k]) clk.getClk()->setMinResetCycles(p.mrc[k]);
+		if (p.mrt[k]) clk.getClk()->setMinResetTime(hlim::ClockRational(p.mrt[k], 1'000'000'000'000ull));
 		b.clocks.push_back(clk);
 		ClockScope cs(clk);
 
@@ -130,6 +149,33 @@ static void buildDesign(const Params &p, Built &b) {
 		IF (sB) accn = 0;
 		acc = reg(accn, 0);
 		acc.setName("acc" + sfx);
+
+		// counter with enable and reset value: stays at 0 while in reset, undefined for ever if it ever leaves reset too early
+		UInt ecnt = 4_b;
+		UInt ecntn = ecnt;
+		IF (eB) ecntn = ecnt + 1;
+		ecnt = reg(ecntn, 0);
+		ecnt.setName("ecnt" + sfx);
+		OutputPins o_ecnt = pinOut(ecnt).setName("o_ecnt" + sfx);
+		b.outs.push_back({"o_ecnt" + sfx, 4, false, o_ecnt.node(), [o_ecnt]() { return simu(o_ecnt).eval(); }});
+
+		if (k == 0 && p.der) {
+			ClockConfig dcfg;
+			dcfg.frequencyMultiplier = hlim::ClockRational(1, 2);
+			dcfg.name = "clkd";
+			if (p.der == 2) {
+				dcfg.resetName = "rstd";
+				dcfg.resetActive = p.rp[0] == 'L' ? ClockConfig::ResetActive::HIGH : ClockConfig::ResetActive::LOW;
+			}
+			Clock dclk = clk.deriveClock(dcfg);
+			b.clocks.push_back(dclk);
+			ClockScope dcs(dclk);
+			UInt dcnt = 3_b;
+			dcnt = reg(dcnt + 1, 5);
+			dcnt.setName("dcnt");
+			OutputPins o_dcnt = pinOut(dcnt).setName("o_dcnt");
+			b.outs.push_back({"o_dcnt", 3, false, o_dcnt.node(), [o_dcnt]() { return simu(o_dcnt).eval(); }});
+		}
 
 		UInt sr = BitWidth((size_t)p.ws);
 		UInt srn = sr << 1;
@@ -300,8 +346,10 @@ struct VcdObserver : public sim::SimulatorCallbacks {
 		out << "R $end\n";
 	}
 	void onNewTick(const hlim::ClockRational &t) override { if (active) out << "T " << t.numerator() << " " << t.denominator() << "\n"; }
-	void onClock(const hlim::Clock *c, bool edge) override { if (!active) return; auto it = clkCode.find(c); if (it != clkCode.end()) out << "B " << it->second << " " << (edge ? 1 : 0) << "\n"; }
-	void onReset(const hlim::Clock *c, bool lvl) override { if (!active) return; auto it = rstCode.find(c); if (it != rstCode.end()) out << "B " << it->second << " " << (lvl ? 1 : 0) << "\n"; }
+	// the LEVEL of the clock / reset signal is read back from the simulator (getValueOfClock / getValueOfReset), the
+	// callback parameter is not trusted
+	void onClock(const hlim::Clock *c, bool) override { if (!active) return; auto it = clkCode.find(c); if (it != clkCode.end()) out << "B " << it->second << " " << (simulator.getValueOfClock(c)[sim::DefaultConfig::VALUE] ? 1 : 0) << "\n"; }
+	void onReset(const hlim::Clock *c, bool) override { if (!active) return; auto it = rstCode.find(c); if (it != rstCode.end()) out << "B " << it->second << " " << (simulator.getValueOfReset(c)[sim::DefaultConfig::VALUE] ? 1 : 0) << "\n"; }
 	void onCommitState() override {
 		if (!active) return;
 		out << "C";
@@ -318,17 +366,28 @@ struct TvObserver : public sim::SimulatorCallbacks {
 	sim::Simulator &simulator;
 	std::ostream &out;
 	std::map<hlim::NodePort, std::string> outName;   // driver of an output pin -> pin name
-	TvObserver(sim::Simulator &s, std::ostream &o, const Built &b) : simulator(s), out(o) {
+	TvObserver(sim::Simulator &s, std::ostream &o, const Built &b, hlim::Circuit &circuit) : simulator(s), out(o) {
 		for (auto &op : b.outs) {
 			auto drv = op.node->getDriver(0);
 			if (outName.count(drv)) outName[drv] += "|" + op.name; else outName[drv] = op.name;
+		}
+		// reset pins of the design: name, polarity (1 = active high), kind
+		auto pins = hlim::extractClockPins(circuit, hlim::Subnet::allForSimulation(circuit));
+		for (auto &r : pins.resetPins) {
+			auto &a = r.source->getRegAttribs();
+			out << "RstDecl " << r.source->getResetName() << " " << (a.resetActive == hlim::RegisterAttributes::Active::HIGH ? 1 : 0) << " "
+				<< (a.resetType == hlim::RegisterAttributes::ResetType::ASYNCHRONOUS ? "A" : "S") << "\n";
 		}
 	}
 	void onPowerOn() override { out << "PowerOn\n"; }
 	void onNewPhase(size_t ph) override { auto t = simulator.getCurrentSimulationTime(); out << "NewPhase " << ph << " " << t.numerator() << " " << t.denominator() << "\n"; }
 	void onAfterMicroTick(size_t) override { out << "AMT\n"; }
 	void onCommitState() override { out << "Commit\n"; }
-	void onReset(const hlim::Clock *c, bool lvl) override { out << "Reset " << c->getResetName() << " " << (lvl ? 1 : 0) << "\n"; }
+	// second field: the LEVEL the reset signal has now according to Simulator::getValueOfReset; third: the callback parameter
+	void onReset(const hlim::Clock *c, bool param) override {
+		auto v = simulator.getValueOfReset(c);
+		out << "Reset " << c->getResetName() << " " << (v[sim::DefaultConfig::DEFINED] ? (v[sim::DefaultConfig::VALUE] ? "1" : "0") : "X") << " " << (param ? 1 : 0) << "\n";
+	}
 	void onSimProcOutputOverridden(const hlim::NodePort &o, const sim::ExtendedBitVectorState &st) override {
 		auto *pin = dynamic_cast<hlim::Node_Pin *>(o.node);
 		out << "Set " << (pin ? pin->getName() : std::string("?")) << " " << extBits(st) << "\n";
@@ -340,10 +399,30 @@ struct TvObserver : public sim::SimulatorCallbacks {
 	}
 };
 
-struct RstObserver : public sim::SimulatorCallbacks {
-	std::ostream &out;
-	RstObserver(std::ostream &o) : out(o) {}
-	void onReset(const hlim::Clock *c, bool lvl) override { out << " " << c->getResetName() << "=" << (lvl ? 1 : 0); }
+// Replay simulator: the reset pins are driven by the RST records of the file, like the generated VHDL interpreter does
+// (`<reset> <= v_clk`), not by the simulator's own power-on sequence.
+struct ReplaySim : public sim::ReferenceSimulator {
+	ReplaySim() : sim::ReferenceSimulator(false) {}
+	// forget the reset releases powerOn() scheduled
+	void dropScheduledResets() {
+		std::vector<sim::Event> keep;
+		while (!m_nextEvents.empty()) { if (m_nextEvents.top().type != sim::Event::Type::resetValueChange) keep.push_back(m_nextEvents.top()); m_nextEvents.pop(); }
+		for (auto &e : keep) m_nextEvents.push(e);
+	}
+	// what Event::Type::resetValueChange does, now
+	bool driveReset(const std::string &name, bool level) {
+		for (size_t i = 0; i < m_program.m_resetSources.size(); i++) {
+			auto &src = m_program.m_resetSources[i];
+			if (src.pin->getResetName() != name) continue;
+			m_dataState.resetState[i].resetHigh = level;
+			for (auto dom : src.domains)
+				for (auto &cn : dom->clockedNodes)
+					cn.changeReset(m_callbackDispatcher, m_dataState, level, m_performanceCounters);
+			m_stateNeedsReevaluating = true;
+			return true;
+		}
+		return false;
+	}
 };
 
 // ----------------------------------------------------------------------------------------------
@@ -370,9 +449,10 @@ static void recordRun(const Params &p, const std::filesystem::path &dir) {
 		if (p.tv) {
 			vhd.emplace(dir / (p.id + "_vhdl") / "design.vhd");
 			vhd->addTestbenchRecorder(s, "testbench", false);
+			vhd->addTestbenchRecorder(s, "tbinline", true);    // the inline recorder: only its reset assignments are looked at
 			(*vhd)(design.getCircuit());
 			tvlog.open(dir / (p.id + ".tvlog"));
-			tobs.emplace(s, tvlog, b);
+			tobs.emplace(s, tvlog, b, design.getCircuit());
 			s.addCallbacks(&*tobs);
 		}
 		addStimulus(s, p, b);
@@ -386,6 +466,9 @@ static void recordRun(const Params &p, const std::filesystem::path &dir) {
 			tvlog.close();
 			std::filesystem::copy_file(dir / (p.id + "_vhdl") / "testbench.testvectors", dir / (p.id + ".testvectors"),
 				std::filesystem::copy_options::overwrite_existing);
+			if (std::filesystem::exists(dir / (p.id + "_vhdl") / "tbinline.vhd"))
+				std::filesystem::copy_file(dir / (p.id + "_vhdl") / "tbinline.vhd", dir / (p.id + ".tbinline.vhd"),
+					std::filesystem::copy_options::overwrite_existing);
 		}
 	}   // sink destroyed: file closed
 	trace.close();
@@ -422,10 +505,7 @@ static void replayRun(const Params &p, const std::filesystem::path &dir) {
 	Built b;
 	buildDesign(p, b);
 	design.postprocess();
-	sim::ReferenceSimulator s(false);
-	std::ostringstream rstSim;
-	RstObserver robs(rstSim);
-	s.addCallbacks(&robs);
+	ReplaySim s;
 	size_t fails = 0, checks = 0;
 	// Replay semantics = the interpreter loop the recorder writes into testbench.vhd: `wait for n ps`, then the records act
 	// at that time.  In VHDL a test-bench action at time t precedes the register updates caused by a clock edge at the same t
@@ -459,16 +539,17 @@ static void replayRun(const Params &p, const std::filesystem::path &dir) {
 				}
 				if (!found) { out << "BADPIN " << i << " " << r.name << "\n"; fails++; }
 			} else if (r.kind == "RST") {
-				// resets are driven by the fresh simulator itself (same design, same power-on sequence)
+				// the record carries the LEVEL of the reset signal (the interpreter assigns it to the port as it is)
+				bool ok = (r.value == "0" || r.value == "1") && s.driveReset(r.name, r.value == "1");
+				out << "RSTREC " << i << " " << now << " " << r.name << " " << r.value << (ok ? " ok" : " BAD") << "\n";
+				if (!ok) fails++;
 			} else { out << "BADREC " << i << " " << r.kind << "\n"; fails++; }
 		}
 	});
 	s.compileProgram(design.getCircuit());
-	s.powerOn();
+	s.powerOn();               // asserts every reset (the declared initial value of the reset signals in testbench.vhd)
+	s.dropScheduledResets();   // from here on only the file moves them
 	s.advance(hlim::ClockRational(p.end.first, p.end.second) + hlim::ClockRational(1, 1'000'000'000ull));
-	out << "RSTFILE";
-	for (auto &r : recs) if (r.kind == "RST") out << " " << r.name << "=" << r.value;
-	out << "\nRSTSIM" << rstSim.str() << "\n";
 	out << "SUMMARY checks=" << checks << " fails=" << fails << "\n";
 }
 
